@@ -28,7 +28,10 @@ RECURSIVE Blur(_)
 Blur(v) == IF v.t = "num" THEN VNum(0)
            ELSE [v EXCEPT !.m = [i \in DOMAIN v.m |-> [k |-> v.m[i].k, v |-> Blur(v.m[i].v)]]]
 
-Verdict(c) == LET t == c.text IN IsText(t, "rfc") /\ StrictEq(Blur(TextValue(t, "rfc")), Blur(Canon(FromJV(c.v))))
+RECURSIVE HasRawV(_)
+HasRawV(x) == x.t = "raw" \/ \E k \in DOMAIN x.m : HasRawV(x.m[k].v)
+\* raw items are printed verbatim and carry no claim (C05 speaks of trees of null, booleans, numbers, strings, arrays, objects)
+Verdict(c) == LET t == c.text v0 == FromJV(c.v) IN HasRawV(v0) \/ (IsText(t, "rfc") /\ StrictEq(Blur(TextValue(t, "rfc")), Blur(Canon(v0))))
 
 VARIABLE i
 Init == i = 1
